@@ -61,9 +61,20 @@ def step? : List String → Option String
     | some [w, h, n, h0, v0, h1, v1, h2, v2, ci] =>
       let f := frameOf w h n h0 v0 h1 v1 h2 v2
       if !JpegAddr.validFrame f then "err" else
+      let pf := JpegAddr.parsedFrame f          -- a single component is decoded with factors 1x1
+      match pf.comps[ci]? with
+      | some c =>
+        okInts ((List.range h).flatMap fun y => (List.range w).map fun x => JpegAddr.shown pf c x y)
+      | none => "bad-op"
+    | _ => "bad-op"
+  -- the same observation when component ci is coded in a scan of its own (non-interleaved walk)
+  | ["jpg-cellmap-ni", w, h, n, h0, v0, h1, v1, h2, v2, ci] => some <| match nats? [w, h, n, h0, v0, h1, v1, h2, v2, ci] with
+    | some [w, h, n, h0, v0, h1, v1, h2, v2, ci] =>
+      let f := frameOf w h n h0 v0 h1 v1 h2 v2
+      if !JpegAddr.validFrame f || n == 1 then "err" else
       match f.comps[ci]? with
       | some c =>
-        okInts ((List.range h).flatMap fun y => (List.range w).map fun x => JpegAddr.shown f c x y)
+        okInts ((List.range h).flatMap fun y => (List.range w).map fun x => JpegAddr.shownNI f c x y)
       | none => "bad-op"
     | _ => "bad-op"
   | ["jpg-rstfilter", hx] => some ("ok " ++ bytesToHex (JpegAddr.scanFilter (hexToBytes hx)))
